@@ -239,6 +239,7 @@ pub fn meta(base: &str, variant: &str, kind: Kind, is_ref: bool) -> Meta {
       labels: vec![],
       finding_id: None,
       fixed_input: None,
+      fixed_ops: None,
    }
 }
 
@@ -256,6 +257,8 @@ struct ReplayFile {
    base: String,
    members: Vec<ReplayMember>,
    input: vcore::val::Db,
+   #[serde(default)]
+   ops: Option<String>,
 }
 
 fn group_from_replay(path: &Path, finding_id: Option<String>) -> GroupSpec {
@@ -270,6 +273,7 @@ fn group_from_replay(path: &Path, finding_id: Option<String>) -> GroupSpec {
             meta.base = format!("{}-{}", id, rf.base);
             meta.finding_id = Some(id.clone());
             meta.fixed_input = Some(rf.input.clone());
+            meta.fixed_ops = rf.ops.clone();
          }
          MemberSpec { prog: m.ast, opts: m.opts, meta }
       })
